@@ -39,7 +39,11 @@ const confDriver = `package main
 
 import (
 	"encoding/json"
+	"fmt"
+	"io"
 	"os"
+	"os/exec"
+	"strconv"
 
 	"verif/engine/rtapi"
 %s
@@ -56,20 +60,55 @@ var runners = []func([]byte, *rtapi.RunOpts, *rtapi.Ctx) *rtapi.Obs{
 }
 
 func main() {
+	// child mode: driver -one <in.json> <case> <run>: ONE Parse call in a fresh
+	// process (cold package-level state, cold sync.Pool), observation on fd 3
+	if len(os.Args) == 5 && os.Args[1] == "-one" {
+		var cases [][]run
+		b, _ := os.ReadFile(os.Args[2])
+		if err := json.Unmarshal(b, &cases); err != nil {
+			panic(err)
+		}
+		i, _ := strconv.Atoi(os.Args[3])
+		j, _ := strconv.Atoi(os.Args[4])
+		devnull, _ := os.OpenFile(os.DevNull, os.O_WRONLY, 0)
+		os.Stdout = devnull
+		r := cases[i][j]
+		o := r.Opts
+		obs := runners[i](r.Input, &o, &rtapi.Ctx{Script: r.Script})
+		f := os.NewFile(3, "result")
+		json.NewEncoder(f).Encode(obs)
+		f.Close()
+		return
+	}
 	var cases [][]run
-	if err := json.NewDecoder(os.Stdin).Decode(&cases); err != nil {
+	in, _ := io.ReadAll(os.Stdin)
+	if err := json.Unmarshal(in, &cases); err != nil {
 		panic(err)
 	}
-	out, _ := os.OpenFile(os.Args[1], os.O_CREATE|os.O_WRONLY|os.O_TRUNC, 0o644)
-	devnull, _ := os.OpenFile(os.DevNull, os.O_WRONLY, 0)
-	os.Stdout = devnull
+	inPath := os.Args[1] + ".in"
+	os.WriteFile(inPath, in, 0o644)
 	res := make([][]*rtapi.Obs, len(cases))
 	for i, rs := range cases {
-		for _, r := range rs {
-			o := r.Opts
-			res[i] = append(res[i], runners[i](r.Input, &o, &rtapi.Ctx{Script: r.Script}))
+		for j := range rs {
+			pr, pw, _ := os.Pipe()
+			cmd := exec.Command(os.Args[0], "-one", inPath, strconv.Itoa(i), strconv.Itoa(j))
+			cmd.ExtraFiles = []*os.File{pw}
+			cmd.Stderr = os.Stderr
+			if err := cmd.Start(); err != nil {
+				panic(err)
+			}
+			pw.Close()
+			var obs rtapi.Obs
+			derr := json.NewDecoder(pr).Decode(&obs)
+			pr.Close()
+			werr := cmd.Wait()
+			if derr != nil {
+				obs = rtapi.Obs{Panic: fmt.Sprintf("conformance child failed: %%v %%v", werr, derr)}
+			}
+			res[i] = append(res[i], &obs)
 		}
 	}
+	out, _ := os.OpenFile(os.Args[1], os.O_CREATE|os.O_WRONLY|os.O_TRUNC, 0o644)
 	json.NewEncoder(out).Encode(res)
 	out.Close()
 }
@@ -78,6 +117,7 @@ func main() {
 func obsKey(o *rtapi.Obs) string {
 	c := *o
 	c.Ticks, c.Diverged = 0, false
+	c.Pool = nil // the pool monitor only exists in the loader path
 	b, _ := json.Marshal(&c)
 	return string(b)
 }
